@@ -195,6 +195,23 @@ pixman_edge_init (pixman_edge_t *e,
     pixman_edge_step (e, y_start - y_top);
 }
 
+/* Add an offset to a coordinate without wrapping around: the sum of a
+ * trapezoid coordinate near the end of the 16.16 range and the drawing
+ * offset saturates instead.
+ */
+static pixman_fixed_t
+add_offset_saturate (pixman_fixed_t v, pixman_fixed_t offset)
+{
+    pixman_fixed_48_16_t sum = (pixman_fixed_48_16_t)v + offset;
+
+    if (sum > pixman_max_fixed_48_16)
+	return (pixman_fixed_t)pixman_max_fixed_48_16;
+    if (sum < pixman_min_fixed_48_16)
+	return (pixman_fixed_t)pixman_min_fixed_48_16;
+
+    return (pixman_fixed_t)sum;
+}
+
 /*
  * Initialize one edge structure given a line, starting y value
  * and a pixel offset for the line
@@ -223,27 +240,10 @@ pixman_line_fixed_edge_init (pixman_edge_t *            e,
     }
     
     pixman_edge_init (e, n, y,
-                      top->x + x_off_fixed,
-                      top->y + y_off_fixed,
-                      bot->x + x_off_fixed,
-                      bot->y + y_off_fixed);
-}
-
-/* Add an offset to a coordinate without wrapping around: the sum of a
- * trapezoid coordinate near the end of the 16.16 range and the drawing
- * offset saturates instead.
- */
-static pixman_fixed_t
-add_offset_saturate (pixman_fixed_t v, pixman_fixed_t offset)
-{
-    pixman_fixed_48_16_t sum = (pixman_fixed_48_16_t)v + offset;
-
-    if (sum > pixman_max_fixed_48_16)
-	return (pixman_fixed_t)pixman_max_fixed_48_16;
-    if (sum < pixman_min_fixed_48_16)
-	return (pixman_fixed_t)pixman_min_fixed_48_16;
-
-    return (pixman_fixed_t)sum;
+                      add_offset_saturate (top->x, x_off_fixed),
+                      add_offset_saturate (top->y, y_off_fixed),
+                      add_offset_saturate (bot->x, x_off_fixed),
+                      add_offset_saturate (bot->y, y_off_fixed));
 }
 
 PIXMAN_EXPORT void
